@@ -406,18 +406,26 @@ def run(tier, seed):
               if node is None:
                 continue
               exp_s, exp_t = {('', 'old', 0): 's0'}, {('', 'old', 0): 't0'}
+              got_s = {tuple(kv[:3]): kv[3] for kv in node['study']['md']}
+              t1 = [t_ for t_ in node['trials'] if t_['id'] == 1]
+              got_t = {tuple(kv[:3]): kv[3] for kv in t1[0]['md']} if t1 else None
               for rpc, out in zip(rpcs, res['outcomes']):
                 if out[0] != 'Done':
                   continue
                 ws, wt = written(rpc)
+                if rpc[0] in ('SuggestTrials', 'CheckEarlyStop'):
+                  # an algorithm's delta exists only if the algorithm was asked: a suggestion served entirely from the queue of
+                  # REQUESTED trials (the other call may just have added one) or an early-stopping check answered from a stored
+                  # operation never reaches it.  Then NONE of its keys is stored; otherwise ALL of them are.
+                  keys_s = [tuple(kv[:3]) for kv in ws]
+                  keys_t = [tuple(kv[:3]) for tid_, kv in wt if tid_ == 1]
+                  if not any(k_ in got_s for k_ in keys_s) and not any(k_ in (got_t or {}) for k_ in keys_t):
+                    continue
                 for kv in ws:
                   exp_s[tuple(kv[:3])] = kv[3]
                 for tid_, kv in wt:
                   if tid_ == 1:
                     exp_t[tuple(kv[:3])] = kv[3]
-              got_s = {tuple(kv[:3]): kv[3] for kv in node['study']['md']}
-              t1 = [t_ for t_ in node['trials'] if t_['id'] == 1]
-              got_t = {tuple(kv[:3]): kv[3] for kv in t1[0]['md']} if t1 else None
               # the two writers never write the same key, so the expectation does not depend on the order
               if got_s != exp_s or (got_t is not None and got_t != exp_t):
                 concrete = True
